@@ -356,8 +356,8 @@ func hostCases() []hostCase {
 		hostCase{"time.Time", c20now}, hostCase{"time.Time", c20now.Add(time.Hour)}, hostCase{"time.Time", time.Unix(1700000000, 5).In(time.FixedZone("east", 19800))},
 		hostCase{"time.Time", time.Date(9999, 12, 31, 23, 59, 59, 999999999, time.UTC)}, hostCase{"time.Duration", time.Duration(math.MaxInt64)}, hostCase{"time.Duration", time.Duration(math.MinInt64)},
 		hostCase{"other", (*int)(nil)}, hostCase{"other", (*c06obj)(nil)}, hostCase{"other", []int(nil)}, hostCase{"other", map[string]int(nil)}, hostCase{"other", []string{}}, hostCase{"other", &c06obj{5}},
-		hostCase{"other", int8(-3)}, hostCase{"other", uint16(9)}, hostCase{"other", uint64(1 << 63)}, hostCase{"other", complex(1, 2)}, hostCase{"int32", 'x'},
-		hostCase{"nil", nil}, hostCase{"other", struct{ A int }{3}}, hostCase{"other", map[string]int{"a": 1}}, hostCase{"other", uint8(3)})
+		hostCase{"smallint", int8(-3)}, hostCase{"smallint", uint16(9)}, hostCase{"other", uint64(1 << 63)}, hostCase{"other", complex(1, 2)}, hostCase{"int32", 'x'},
+		hostCase{"nil", nil}, hostCase{"other", struct{ A int }{3}}, hostCase{"other", map[string]int{"a": 1}}, hostCase{"smallint", uint8(3)}, hostCase{"smallint", int16(-300)})
 	return cs
 }
 
